@@ -50,6 +50,7 @@ fn parent(args: &Args) {
     let ends = run::run_children(args, &ChildSpec::new("hist", shards).arg("hist", hist).timeout(900), &mut out);
     run::classify_ends(&ends, &mut out, true);
     let mut extra = Map::new();
+    vlib::sanlayer::run_layers(ID, args, &mut out, &mut extra);
     // the same workload on a build with the repository's debug assertions live (FilterState
     // carries debug counters that turn a leaked filter bit into a panic)
     if let Ok(p) = std::env::var("VERIF_C07_DBG_BIN") {
